@@ -124,6 +124,8 @@ type Frame struct {
 	retIdx   int
 	specEnvExtra map[string]Value
 	extraModel   []ModelVar
+	loopSeen     map[int]mapIter
+	curLoop      int
 }
 
 type retInfo struct {
